@@ -222,7 +222,8 @@ PROPS["C04"] = {
                   " Round 6: every arithmetic shape is also placed in `e = v`, `e >= v`, `e <= v` with v the value of e on one of the pairs (a rewrite that moves e by one unit in the last place below a Boolean root changes the rows); the pairs hold 0.1, 0.3, 0.7 and 2.675."
                   " Round 7: every arithmetic shape is also run under a name (`e as c1, c1 as c2, c1 + 0 as c3`): the field, a field that is only its name and a field that uses the name must all show the value of e as written."
                   " Round 8: the text chains also hold numbers (key + 1 + 2): refused by the checker today and counted as rejected; the comparison original / rewritten is made for whatever a tree accepts."
-                  " Round 10: every all-text chain a + b + c of the enumeration is also run as `a + b as c1, c1 as c2, c1 + c as c3` (the chain goes on behind a name); c1, its name and the continued chain must show the reference values.",
+                  " Round 10: every all-text chain a + b + c of the enumeration is also run as `a + b as c1, c1 as c2, c1 + c as c3` (the chain goes on behind a name); c1, its name and the continued chain must show the reference values."
+                  " Round 11: two constant calls whose canonical renderings coincide, join('-', \"a', 'b\") and join('-', 'a', 'b'), are among the leaves of the text chains (anything remembered per rendered text confuses them).",
     "rule": "enumerated expressions placed as select field or inside a WHERE comparison (each emitted once) + rapid typed trees depth 1-4. "
             "Non-trivial = the rewrite changed the rendered expression (String() differs) and the original evaluates on at least one pair; "
             "distinct = distinct statements.",
